@@ -4,7 +4,7 @@
    against the real Part after every operation; Inv / valid_op / abs / spec_* are in Model/C01_Spec.v;
    ct_* (Gen/C01_ClassTree.v) is the TimedObject class tree reflected from partitura.score on every run. *)
 From PV Require Import Lib.Base Gen.C01_ClassTree Model.C01 Model.C01_Tree Model.C01_Spec Model.C01_Idx Model.C01_Dict
-  Proofs.C01_tree Proofs.C01_inv Proofs.C01_main Proofs.C01_query Proofs.C01_idx Proofs.C01_dict.
+  Model.C01_Hist Proofs.C01_tree Proofs.C01_inv Proofs.C01_main Proofs.C01_query Proofs.C01_idx Proofs.C01_dict Proofs.C01_hist.
 From Coq Require Import Sorting.Sorted Sorting.Permutation.
 
 (* ------------------------------------------------------------------ O1: the invariant, every reachable state *)
@@ -239,6 +239,25 @@ Theorem run_idx_eq : forall q0 ops, mixed_run (init q0) ops ->
   run_idx (init_idx q0) ops = (run (init q0) ops, qtab (run (init q0) ops)).
 Proof. exact reachable_idx_lemma. Qed.
 Print Assumptions run_idx_eq.
+
+(* state carried between calls (Model/C01_Hist.v): along EVERY history of operations (rejected calls included) with
+   questions to the CACHED quarter map (what a point created now would carry) and to the map built on demand interleaved
+   anywhere, every answer of the index-level machine -- whose state holds the cache -- is the answer computed from the
+   part as it is at that moment: no answer depends on an earlier state *)
+Theorem history_answers_current : forall q0 evs, mixed_run (init q0) (ops_of evs) ->
+  observe step_idx (init_idx q0) evs = expected (init q0) evs.
+Proof. exact history_answers_current_lemma. Qed.
+Print Assumptions history_answers_current.
+
+(* not vacuous: for the memoising variant step_memo (the map is rebuilt when a change is inserted, not when an existing
+   entry is replaced) the same statement is false -- after set(4,2); set(4,3) the cached map still answers 2 at time 5 *)
+Theorem history_answers_memo_refuted :
+  mixed_run (init 1) (ops_of ex_events) /\
+  observe step_idx (init_idx 1) ex_events = [2; 2; 3; 3; 1] /\
+  expected (init 1) ex_events = [2; 2; 3; 3; 1] /\
+  observe step_memo (init_idx 1) ex_events = [2; 2; 2; 3; 1].
+Proof. exact history_answers_memo_refuted_lemma. Qed.
+Print Assumptions history_answers_memo_refuted.
 
 (* the slices / lookups of the queries by index are the half-open windows of the list-level model *)
 Theorem queries_idx_eq : forall p, InvW p ->
